@@ -49,7 +49,7 @@ func TestC01(t *testing.T) {
 		{MinTypes: 1, MaxTypes: 2, MinOps: 10, MaxOps: 30, Async: false, Scripts: true, FewClasses: true},
 		{MinTypes: 2, MaxTypes: 5, MinOps: 20, MaxOps: 60, Async: true, Scripts: true, Cancels: true},
 		{MinTypes: 1, MaxTypes: 3, MinOps: 12, MaxOps: 40, Async: true, Scripts: true, Panics: true}, // some handlers panic: everything else about delivery and the registry is unaffected
-		{MinTypes: 2, MaxTypes: 4, MinOps: 15, MaxOps: 45, Async: true, Scripts: true, Store: true}, // persistent bus (store, error handler, persistence timeout): delivery is unaffected
+		{MinTypes: 2, MaxTypes: 4, MinOps: 15, MaxOps: 45, Async: true, Scripts: true, Store: true},  // persistent bus (store, error handler, persistence timeout): delivery is unaffected
 	}
 	// wide registries: one type with more handlers than any small internal capacity (64, 128, 256 ...),
 	// once handlers spread over all positions, plain / context / async mixed; two publishes, queries
